@@ -3,7 +3,7 @@ from .splines_common import NOT_DECIDED_CUBIC_INVERSE
 
 META = dict(
     unbounded_in=["input values", "all parameter values", "spline boxes / tail bounds", "leading (batch, feature) shape of the elementwise kernels"],
-    bounded_in={"num_bins": "1..3 quick (cubic inverse 1..2); thorough 1..8 (rq, linear), 1..5 (quadratic, cubic; cubic inverse 1..3)"},
+    bounded_in={"num_bins": "1..3 quick (cubic inverse 1..2); thorough 1..8 (all four families; cubic inverse 1..5); non-default unequal floors at 2 (3) bins"},
     not_decided=[NOT_DECIDED_CUBIC_INVERSE],
     assumptions=["cubic inverse: intermediate value theorem (lemma 4d) gives a solution inside the bin; sign of the cubic discriminant (lemma 4h): a negative Cardano discriminant means exactly one real root; the three-real-roots branch is assumed to return a root inside the bin"],
 )
